@@ -908,3 +908,106 @@ pub fn main(mut chk: Check) -> ! {
     chk.run("roundtrip", t.pick(400_000, 3_000_000), case_strategy(), oracle);
     chk.finish()
 }
+
+// ------------------------------------------------------------------------------------------
+// libFuzzer entry: bytes -> a case of the same class (thorough tier, harness/fuzz/fuzz_targets/fz_c15.rs)
+// ------------------------------------------------------------------------------------------
+
+/// Characters that matter to percent-/form-/JSON-encoding, plus multi-byte and astral ones.
+const FUZZ_ALPHABET: &[&str] = &[
+    "a", "Z", "0", "9", " ", "+", "%", "%4", "%41", "%zz", "&", "=", "/", "?", "#", ";", ":", "@", "!", "$", "'", "(", ")", "*", ",", "-", ".", "_", "~", "\"", "\\", "{", "}", "[", "]", "<", ">", "|", "^", "`", "\t", "\n", "\r", "é", "ß", "中", "😀", "\u{7f}", "\u{a0}", "\u{2028}", "\u{feff}",
+];
+
+pub fn case_from_bytes(data: &[u8]) -> Case {
+    let mut i = 0usize;
+    let mut b = || {
+        let v = data.get(i).copied().unwrap_or(0);
+        i += 1;
+        v
+    };
+    let channel = [Channel::Path, Channel::Query, Channel::Form, Channel::Json][(b() % 4) as usize];
+    let shapes = if channel == Channel::Path { PATH_SHAPES } else { Q_SHAPES };
+    let shape = b() % shapes.len() as u8;
+    let fields = shapes[shape as usize];
+    let mut string = |b: &mut dyn FnMut() -> u8, allow_empty: bool| -> String {
+        let n = (b() % 9) as usize;
+        let mut s: String = (0..n).map(|_| FUZZ_ALPHABET[b() as usize % FUZZ_ALPHABET.len()]).collect();
+        if s.is_empty() && !allow_empty {
+            s.push('x');
+        }
+        s
+    };
+    let mut num = |b: &mut dyn FnMut() -> u8| -> u128 {
+        match b() % 4 {
+            0 => 0,
+            1 => u128::MAX,
+            _ => {
+                let mut v = 0u128;
+                for _ in 0..(1 + b() % 16) {
+                    v = (v << 8) | b() as u128;
+                }
+                v
+            }
+        }
+    };
+    let mut values: Vec<Vec<String>> = vec![];
+    for (_, k) in fields {
+        let v: Vec<String> = match k {
+            Kind::U8 => vec![(num(&mut b) as u8).to_string()],
+            Kind::U16 => vec![(num(&mut b) as u16).to_string()],
+            Kind::U32 => vec![(num(&mut b) as u32).to_string()],
+            Kind::U64 => vec![(num(&mut b) as u64).to_string()],
+            Kind::U128 => vec![num(&mut b).to_string()],
+            Kind::I8 => vec![(num(&mut b) as i8).to_string()],
+            Kind::I16 => vec![(num(&mut b) as i16).to_string()],
+            Kind::I32 => vec![(num(&mut b) as i32).to_string()],
+            Kind::I64 => vec![(num(&mut b) as i64).to_string()],
+            Kind::I128 => vec![(num(&mut b) as i128).to_string()],
+            Kind::F32 => {
+                let f = f32::from_bits(num(&mut b) as u32);
+                let f = if f.is_finite() && serde_json::from_str::<f32>(&f.to_string()).ok() == Some(f) { f } else { 1.5 };
+                vec![f.to_string()]
+            }
+            Kind::F64 => {
+                let f = f64::from_bits(num(&mut b) as u64);
+                let f = if f.is_finite() && serde_json::from_str::<f64>(&f.to_string()).ok() == Some(f) { f } else { -0.25 };
+                vec![f.to_string()]
+            }
+            Kind::Bool => vec![(b() % 2 == 0).to_string()],
+            Kind::Char => {
+                let s = FUZZ_ALPHABET[b() as usize % FUZZ_ALPHABET.len()];
+                vec![s.chars().next().unwrap_or('c').to_string()]
+            }
+            Kind::Str => vec![string(&mut b, true)],
+            Kind::OptStr => {
+                if b() % 4 == 0 {
+                    vec![]
+                } else {
+                    vec![string(&mut b, false)]
+                }
+            }
+            Kind::OptU32 => {
+                if b() % 4 == 0 {
+                    vec![]
+                } else {
+                    vec![(num(&mut b) as u32).to_string()]
+                }
+            }
+            Kind::OptU8 => vec![(num(&mut b) as u8).to_string()],
+            Kind::VecStr => (0..(1 + b() % 3)).map(|_| string(&mut b, true)).collect(),
+            Kind::VecU16 => (0..(1 + b() % 3)).map(|_| (num(&mut b) as u16).to_string()).collect(),
+        };
+        values.push(v);
+    }
+    let salt = u64::from_le_bytes([b(), b(), b(), b(), b(), b(), b(), b()]);
+    let body = matches!(channel, Channel::Form | Channel::Json);
+    let malform = match b() % 12 {
+        0 | 1 => Malform::BadValue(b(), b()),
+        2 => Malform::Missing(b()),
+        3 | 4 if body => Malform::ContentType(b(), b(), b(), b()),
+        5 if body => Malform::NoContentType,
+        6 if channel == Channel::Json => Malform::Truncate(b()),
+        _ => Malform::None,
+    };
+    Case { channel, shape, values, salt, malform }
+}
